@@ -533,7 +533,7 @@ func checkC19(c *Ctx) {
 	}
 	docs := filepath.Join(c.Scratch, "vdocs")
 	must(os.MkdirAll(docs, 0o755))
-	c.RunCases("validate", c.pick(60, 2500), 8, func(cs *Case) {
+	c.RunCases("validate", c.pick(150, 2500), 8, func(cs *Case) {
 		r := cs.R
 		spec := genSpec(r, SpecGen{Marker: "m"})
 		d := specDoc(spec)
@@ -573,6 +573,30 @@ func checkC19(c *Ctx) {
 		} else {
 			args = append(args, file)
 			want = s.ValidateFile(file)
+			// several documents in one invocation: non-zero iff any of them fails
+			for k := r.Intn(4) - 1; k > 0; k-- {
+				d2 := specDoc(genSpec(r, SpecGen{Marker: "m"}))
+				if chance(r, 40) {
+					muts = append(muts, "doc+: "+c17Mutate(r, d2))
+				}
+				enc2 := pickStr(r, "json", "yaml")
+				data2 := []byte(emitJSON(d2))
+				if enc2 == "yaml" {
+					data2 = []byte(emitYAML(d2))
+				}
+				f2 := filepath.Join(docs, fmt.Sprintf("%s-%d.%s", sanitize(cs.Name), k, enc2))
+				must(os.WriteFile(f2, data2, 0o644))
+				defer os.Remove(f2)
+				if chance(r, 50) {
+					args = append(args, f2)
+				} else {
+					args = append(args[:len(args)-1:len(args)-1], f2, args[len(args)-1])
+				}
+				if e := s.ValidateFile(f2); e != nil && want == nil {
+					want = fmt.Errorf("%s: %w", filepath.Base(f2), e)
+				}
+				c.Count("validate_invocations_with_several_documents", 1)
+			}
 		}
 		res := runCLI(valBin, stdin, args...)
 		c.Count("validate_invocations", 1)
@@ -597,6 +621,7 @@ func checkC19(c *Ctx) {
 	c.Floor("invocations_without_cache_errors", 20)
 	c.Floor("validate_accepting", 5)
 	c.Floor("validate_rejecting", 5)
+	c.Floor("validate_invocations_with_several_documents", 10)
 }
 
 // splitBlocks returns the text following each heading line (matched by re) up to the next heading.
